@@ -63,17 +63,34 @@ var (
 	tFn   = reflect.TypeOf(Fn(nil))
 )
 
+// dupA / dupB declare two different types that print alike ("c04.Dup"): types
+// of the same name from two scopes (two packages called log, say).
+func dupA() (reflect.Type, func(int) reflect.Value) {
+	type Dup struct{ ID int }
+	return reflect.TypeOf(Dup{}), func(id int) reflect.Value { return reflect.ValueOf(Dup{id}) }
+}
+
+func dupB() (reflect.Type, func(int) reflect.Value) {
+	type Dup struct{ ID int }
+	return reflect.TypeOf(Dup{}), func(id int) reflect.Value { return reflect.ValueOf(Dup{id}) }
+}
+
+var (
+	tDupA, mkDupA = dupA()
+	tDupB, mkDupB = dupB()
+)
+
 // universe lists the types by the short names used in cases.
 var universe = map[string]reflect.Type{
 	"S1": tS1, "S2": tS2, "S3": tS3, "*S1": tPS1, "*S2": tPS2, "*S3": tPS3,
 	"N1": tN1, "N2": tN2, "chan": tChan, "<-chan": tRecv, "I1": tI1, "I2": tI2, "I3": tI3, "I4": tI4,
-	"I0": tI0, "L1": tL1, "M1": tM1, "Fn": tFn,
+	"I0": tI0, "L1": tL1, "M1": tM1, "Fn": tFn, "DupA": tDupA, "DupB": tDupB,
 }
 
-var typeNames = []string{"S1", "S2", "S3", "*S1", "*S2", "*S3", "N1", "N2", "chan", "<-chan", "I1", "I2", "I3", "I4", "I0", "L1", "M1", "Fn"}
+var typeNames = []string{"S1", "S2", "S3", "*S1", "*S2", "*S3", "N1", "N2", "chan", "<-chan", "I1", "I2", "I3", "I4", "I0", "L1", "M1", "Fn", "DupA", "DupB"}
 
 // concrete lists the types a value can be made of.
-var concreteNames = []string{"S1", "S2", "S3", "*S1", "*S2", "*S3", "N1", "N2", "chan", "L1", "M1", "Fn"}
+var concreteNames = []string{"S1", "S2", "S3", "*S1", "*S2", "*S3", "N1", "N2", "chan", "L1", "M1", "Fn", "DupA", "DupB"}
 
 // nillable says whether the concrete type has a typed nil, which is a value
 // like any other for the injector.
@@ -120,6 +137,10 @@ func mkValue(name string, id int) reflect.Value {
 		return reflect.ValueOf(M1{"id": id})
 	case "Fn":
 		return reflect.ValueOf(Fn(func() int { return id }))
+	case "DupA":
+		return mkDupA(id)
+	case "DupB":
+		return mkDupB(id)
 	}
 	panic("harness: mkValue " + name)
 }
